@@ -468,3 +468,67 @@ def _followed_by_break(loop, assign):
                 k = b.index(assign)
                 return any(isinstance(x, (ast.Break, ast.Return)) for x in b[k + 1:k + 3])
     return False
+
+
+# --- R-STALELOOPVAR ----------------------------------------------------------------------------------------------
+_STALE_CTL = '''
+def widths(blocks):
+    table = {}
+    for block in blocks:
+        row = table.setdefault(block.kind, {})
+        row[0] = max(row.get(0, 0), len(block.text))
+    out = []
+    for block in blocks:
+        out.append(block.text.ljust(row[0]))
+    return out
+'''
+
+
+def staleloopvar(repo, modules=None, mods=None):
+    """R-STALELOOPVAR (C11): a name that is bound only inside the body of one top-level `for` loop of a function is a
+    per-iteration temporary.  Read after that loop (typically inside the next loop over the same items) it holds
+    whatever the *last* iteration left -- in _columnize the width table of the last block's row type instead of the
+    current block's.  Reported: such a read.  (Names also bound before the loop, parameters, and accumulators are not
+    temporaries and are not reported.)"""
+    res = RuleResult("R-STALELOOPVAR")
+    if mods is None:
+        mods = [m for m in repo.modules.values() if (modules is None and m.rel.startswith("compiler/") and not m.rel.endswith("_test.py"))
+                or (modules is not None and m.rel.endswith(tuple(modules)))]
+    if not mods:
+        raise AnalysisError(f"R-STALELOOPVAR: modules {modules} not found")
+
+    def stores(node):
+        return {x.id for x in ast.walk(node) if isinstance(x, ast.Name) and isinstance(x.ctx, ast.Store)}
+
+    for m in mods:
+        for f in m.funcs.values():
+            body = f.node.body
+            params = {a.arg for a in f.node.args.args + f.node.args.kwonlyargs}
+            for i, lp in enumerate(body):
+                if not isinstance(lp, ast.For):
+                    continue
+                res.instances += 1
+                inner = stores(lp.target)
+                for st in lp.body:
+                    inner |= stores(st)
+                others = set()
+                for st in body:
+                    if st is not lp:
+                        others |= stores(st)
+                temps = inner - others - params
+                for st in body[i + 1:]:
+                    for x in ast.walk(st):
+                        if isinstance(x, ast.Name) and isinstance(x.ctx, ast.Load) and x.id in temps:
+                            res.add(f"{m.rel}|{f.qualname}|{x.id}", f"{f.qualname} reads `{x.id}` at line {x.lineno}, after the loop at line "
+                                    f"{lp.lineno} that is the only place binding it: the value is the one left by the last iteration "
+                                    "(for the formatter: every row is laid out with the column widths of the last block's row type, "
+                                    "so separators vanish and the output does not parse)", m.rel, x.lineno, f.qualname)
+                            temps = temps - {x.id}
+    return res
+
+
+def control_staleloopvar(repo):
+    from ..pyfacts import Repo
+    r2 = Repo(repo.root, overlay={"compiler/front_end/zz_verif_control.py": _STALE_CTL})
+    g = staleloopvar(r2, mods=[r2.mod("compiler/front_end/zz_verif_control.py")])
+    return len(g.findings) == 1 and "row" in g.findings[0].construct
